@@ -161,11 +161,15 @@ func (a *application) members() []gen.PID {
 }
 
 func (a *application) terminate(pid gen.PID, reason error) {
-	if _, exist := a.group.LoadAndDelete(pid); exist == false {
+	if _, exist := a.group.Load(pid); exist == false {
 		// it was started as a child process somewhere deep in the supervision tree
 		// do nothing.
 		return
 	}
+	// the member leaves the group only after the mode rule has been applied:
+	// another member that terminates concurrently and finds the group empty
+	// must find the reason of the stop as well
+	defer a.terminated(pid)
 
 	switch a.mode {
 	case gen.ApplicationModePermanent:
@@ -199,6 +203,15 @@ func (a *application) terminate(pid gen.PID, reason error) {
 		})
 	default:
 		// do nothing
+	}
+
+}
+
+// terminated removes the member from the group and completes the stop of the
+// application when it was the last one
+func (a *application) terminated(pid gen.PID) {
+	if _, exist := a.group.LoadAndDelete(pid); exist == false {
+		return
 	}
 
 	if a.group.Len() > 0 {
